@@ -73,7 +73,11 @@ impl Command for CommandImpl {
             } else {
                 let start = match parse_number(&context.arguments[1]) {
                     Ok(value) => {
-                        if value > (string_len - 1) {
+                        if value < 0 {
+                            return CommandResult::Error(
+                                "Start index cannot be negative.".to_string(),
+                            );
+                        } else if value > (string_len - 1) {
                             return CommandResult::Error(
                                 "Start index cannot be bigger than total text size.".to_string(),
                             );
@@ -107,6 +111,14 @@ impl Command for CommandImpl {
 
             let start_index: usize = start.try_into().unwrap();
             let end_index: usize = end.try_into().unwrap();
+
+            if !string_value.is_char_boundary(start_index)
+                || !string_value.is_char_boundary(end_index)
+            {
+                return CommandResult::Error(
+                    "Index is not on a character boundary.".to_string(),
+                );
+            }
 
             let sub_string = &string_value.as_str()[start_index..end_index];
 
